@@ -174,6 +174,9 @@ def run_econ(model, symbolic=True):
     if symbolic:
         binds = [(E, 'npf', npf_shim()), (E, 'math', MATH), (E, 'np', shim.NP),
                  (EA, 'npf', npf_shim()), (EA, 'np', shim.NP), (EA, 'math', MATH)]
+        if type(model.economics).__module__.endswith('SBTEconomics'):
+            from geophires_x import SBTEconomics as SE
+            binds += [(SE, 'npf', npf_shim()), (SE, 'math', MATH), (SE, 'np', shim.NP)]
         binds = [b for b in binds if hasattr(b[0], b[1])]
         with shim.shadow(*binds):
             model.economics.Calculate(model)
